@@ -513,3 +513,112 @@ func r155(c *Ctx, r *R) {
 		r.Check(okConst, "displayjson:placeholder-constant", m.Pos(), "the placeholder's JSON does not depend on the hidden value", "hiddenField.MarshalJSON uses its receiver")
 	}
 }
+
+func init() {
+	register(&Rule{ID: "R15.6", Props: []string{"C15"}, Floor: 2, Title: "pointer-typed settings (zero is a legitimate value) are assigned directly into the configuration under a nil test, not only through a zero-skipping merge", Run: r156})
+}
+
+func r156(c *Ctx, r *R) {
+	for _, cc := range c.componentConfigs(r) {
+		J := jsonStructOf(c, cc)
+		if J == nil {
+			continue
+		}
+		var ptrFields []*types.Var
+		var walk func(st *types.Named, d int)
+		walk = func(st *types.Named, d int) {
+			s, ok := st.Underlying().(*types.Struct)
+			if !ok {
+				return
+			}
+			for i := 0; i < s.NumFields(); i++ {
+				f := s.Field(i)
+				if p, ok := f.Type().(*types.Pointer); ok {
+					if strings.HasSuffix(p.Elem().String(), "json.RawMessage") {
+						continue
+					}
+					if _, isStruct := p.Elem().Underlying().(*types.Struct); !isStruct {
+						ptrFields = append(ptrFields, f)
+						continue
+					}
+				}
+				ft := f.Type()
+				if p, ok := ft.(*types.Pointer); ok {
+					ft = p.Elem()
+				}
+				if nt, ok := ft.(*types.Named); ok && d < 2 && nt.Obj().Pkg() == cc.pkg.Types {
+					walk(nt, d+1)
+				}
+			}
+		}
+		walk(J, 0)
+		if len(ptrFields) == 0 {
+			continue
+		}
+		load := c.P.Func(cc.rel, cc.name+".LoadJSON")
+		if load == nil {
+			continue
+		}
+		// functions on the load side: LoadJSON and same-package static callees
+		seen := map[*ssa.Function]bool{}
+		var fs []*ssa.Function
+		var collect func(f *ssa.Function, d int)
+		collect = func(f *ssa.Function, d int) {
+			if seen[f] || d > 4 || f.Blocks == nil {
+				return
+			}
+			seen[f] = true
+			fs = append(fs, f)
+			for _, ci := range callsIn(f) {
+				if cal := ci.Common().StaticCallee(); cal != nil && cal.Pkg == f.Pkg {
+					collect(cal, d+1)
+				}
+			}
+		}
+		collect(load, 0)
+		for _, pf := range ptrFields {
+			direct := false
+			for _, f := range fs {
+				instrs(f, func(i ssa.Instruction) {
+					st, ok := i.(*ssa.Store)
+					if !ok {
+						return
+					}
+					// value = *(load of &x.P)
+					u, ok := st.Val.(*ssa.UnOp)
+					if !ok || u.Op != token.MUL {
+						return
+					}
+					src := u.X
+					fromP := false
+					for _, l := range phiLeaves(src) {
+						if fl, _ := fieldLoad(l); fl == pf {
+							fromP = true
+						}
+					}
+					if fl, _ := fieldLoad(src); fl == pf {
+						fromP = true
+					}
+					if !fromP {
+						return
+					}
+					// destination rooted at the *Config receiver/parameter
+					root := st.Addr
+					for {
+						if fa, ok := root.(*ssa.FieldAddr); ok {
+							root = fa.X
+							continue
+						}
+						break
+					}
+					if p, ok := root.(*ssa.Parameter); ok && ownerOf(p.Type()) == cc.t {
+						direct = true
+					}
+				})
+			}
+			key := cc.rel + "." + pf.Name()
+			r.Check(direct, "pointer-setting:"+key, pf.Pos(), "the explicit value of "+pf.Name()+" is assigned directly into the configuration",
+				"pointer-typed setting "+key+" reaches the configuration only through a merge that skips zero values: an explicit 0 (a legitimate value, which is why the field is a pointer) is silently replaced by the default")
+		}
+	}
+}
